@@ -130,6 +130,8 @@ class Exec:
         self.nobj = 0
         self.prefix = list(prefix)
         self.taken = []
+        self.taken_keys = []
+        self.site_occ = {}
         self.known = {}
         self.pc = []
         self.pending = []
@@ -198,7 +200,7 @@ class Exec:
             op, w, args = T.nodes[nid]
             if op == 'ite':
                 # pointer chosen by a symbolic condition (e.g. a function table filled from CPU feature tests): fork on it
-                return self.decode(args[1] if self.decide(args[0]) else args[2])
+                return self.decode(args[1] if self.decide(args[0], ('decode-ite-pointer',)) else args[2])
             if op == 'add' and len(args[0]) == 1 and args[0][0][1] == 1:
                 o = self.base2obj.get(args[0][0][0])
                 if o is not None:
@@ -349,7 +351,46 @@ class Exec:
         return self.from_bits(ty, b)
 
     # ---------------------------------------------------------------- branching
-    def decide(self, c):
+    def decide(self, c, site=None):
+        """branch decision. `site` identifies the branching instruction; decisions are additionally keyed by (site, occurrence on
+        this path) so that a path can be re-executed after construction-time lemmas were installed: a condition that now folds to a
+        constant (or coincides with an earlier one) must not shift the decisions that follow it"""
+        key = None
+        if site is not None:
+            n = self.site_occ.get(site, 0)
+            self.site_occ[site] = n + 1
+            key = (site, n)
+        replay = getattr(self, 'replay', None)
+        if replay is not None and key is not None:
+            ch = replay.get(key)
+            if ch is not None:
+                if T.is_const(c):
+                    if bool(T.cval(c)) != ch:
+                        raise Inconclusive('an installed lemma contradicts the recorded path at %s' % (site[0],))
+                    return ch
+                k = self.known.get(c)
+                if k is None:
+                    k2 = self.known.get(T.bxor(c, T.const(1, 1)))
+                    k = None if k2 is None else (not k2)
+                if k is not None:
+                    if k != ch:
+                        raise Inconclusive('an installed lemma contradicts the recorded path at %s' % (site[0],))
+                    return ch
+                self.taken.append(ch)
+                self.taken_keys.append(key)
+                self.known[c] = ch
+                self.pc.append((c, ch))
+                return ch
+            # no decision was made here on the recorded path: the condition must be decidable without one
+            if T.is_const(c):
+                return bool(T.cval(c))
+            k = self.known.get(c)
+            if k is not None:
+                return k
+            k = self.known.get(T.bxor(c, T.const(1, 1)))
+            if k is not None:
+                return not k
+            raise Inconclusive('re-execution reached a decision the recorded path did not make at %s' % (site[0],))
         if T.is_const(c):
             return bool(T.cval(c))
         k = self.known.get(c)
@@ -367,6 +408,7 @@ class Exec:
             self.pending.append(self.taken + [False])
             self.stats['forks'] += 1
         self.taken.append(ch)
+        self.taken_keys.append(key)
         self.known[c] = ch
         self.pc.append((c, ch))
         return ch
@@ -383,6 +425,7 @@ class Exec:
         """setup(ex) -> (function name, [args]); returns [PathResult]"""
         results = []
         work = [[]]
+        self.replay = None
         while work:
             if len(results) >= maxpaths:
                 raise Inconclusive('more than %d paths' % maxpaths)
@@ -402,6 +445,8 @@ class Exec:
             r.pc = list(self.pc)
             r.objs = self.objs
             r.decisions = list(self.taken)
+            r.decision_keys = {k_: c_ for k_, c_ in zip(self.taken_keys, self.taken) if k_ is not None}
+            r.keyed = all(k_ is not None for k_ in self.taken_keys)
             r.ex = self
             r.trace = self.trace
             r.named = dict(getattr(self, 'named', {}))
@@ -415,9 +460,11 @@ class Exec:
                 break
         return results
 
-    def run_single(self, setup, decisions):
-        """re-execute exactly one path (the given decision sequence); returns its PathResult"""
+    def run_single(self, setup, decisions, keys=None):
+        """re-execute exactly one path (the given decision sequence; with `keys` the decisions are looked up by branching site and
+        occurrence, which stays aligned when installed lemmas fold some conditions); returns its PathResult"""
         self.reset_path(decisions)
+        self.replay = keys
         r = PathResult()
         try:
             fname, args = setup(self)
@@ -550,7 +597,7 @@ class Exec:
                         if ins.c is None:
                             nxt = ins.a
                         else:
-                            nxt = ins.a if self.decide(self.val(env, ('int', 1), ins.c)) else ins.b
+                            nxt = ins.a if self.decide(self.val(env, ('int', 1), ins.c), (f.name, ins.text)) else ins.b
                         break
                     if op == 'ret':
                         return self.val(env, ins.ty, ins.a) if ins.a is not None else None
@@ -565,7 +612,7 @@ class Exec:
                                     break
                         else:
                             for k, lab in ins.c:
-                                if self.decide(T.eq(v, T.const(k, ins.ty[1]))):
+                                if self.decide(T.eq(v, T.const(k, ins.ty[1])), (f.name, ins.text, k)):
                                     nxt = lab
                                     break
                         if nxt is None:
